@@ -448,6 +448,11 @@ def run(tier):
             rep.violation(k2, 'sna2ctl and sna2skool disagree on the length of bytes %s (%s): %s' % (hexseq, key, detail), {'case': {'size_enumeration': key}, 'detail': str(detail)})
     rep.exhaustive.append({'domain': 'instruction length per opcode path: opcodes.decode vs Disassembler, 5 addresses x 5 operand bytes x 2 additional-opcode settings', 'size': sum(r[1] for r in res7), 'visited': sum(r[1] for r in res7), 'complete': True})
     from props import c14text, c14dict, c14map
+    rm = c14map.replay_read_map({}, '')        # B: the three map formats through read_map (out-of-range entries, extra flag bits)
+    rep.bounded.append({'function': 'skoolkit.snactl.read_map (rzxplay text, Z80 bit map, SpecEmu byte map)', 'contract': 'blocks increasing and disjoint, every map address inside [start, end) in a block, no block from an address outside the range or not executed',
+                        'bound': '300 generated maps (100 per format)', 'evaluations': 300})
+    if rm.get('diffs'):
+        rep.violation('C14/read_map/%s' % rm['case'].get('map_format', 'map'), 'read_map on a %s map: %s' % (rm['case'].get('map_format'), rm['diffs'][:2]), {'case': rm['case'], 'observed_vs_expected': [list(map(str, d)) for d in rm['diffs'][:3]]})
     c14map.check_read_map(rep, 'C14')             # code-map blocks: increasing, disjoint, every map address inside a block
     c14text.check_text_scanners(rep, 'C14')       # _check_text / _get_text_blocks: blocks inside the requested range
     c14dict.check_dict_phases(rep, 'C14')         # zero-block / join / text phases keep {start, end} and the 'i' at end
